@@ -1,7 +1,9 @@
 package main
 
 import (
+	"crypto/sha256"
 	"encoding/hex"
+	"encoding/json"
 	"go/types"
 	"strings"
 )
@@ -196,4 +198,89 @@ func init() {
 	models["encoding/json.Marshal"] = func(it *Interp, a []Val) Val {
 		return Tuple{&StrV{Boxed: copyDeep(a[0]), BoxK: "json"}, IfaceV{}}
 	}
+}
+
+// ethabi.JSON: the ABI's Events and Methods maps are built from the JSON text (names only); an event's ID is a
+// stand-in 32-byte constant derived from its name (the real keccak id is never recomputed by the targets).
+func init() {
+	models["strings.NewReader"] = func(it *Interp, a []Val) Val {
+		return Ptr(newVal(&Native{Kind: "stringsreader", Data: a[0]}))
+	}
+	models[ethABI+".JSON"] = func(it *Interp, a []Val) Val {
+		var src *StrV
+		if iv, ok := a[0].(IfaceV); ok {
+			if p, ok := iv.V.(Ptr); ok && p != nil {
+				if n, ok := (*p).(*Native); ok && n.Kind == "stringsreader" {
+					src = n.Data.(*StrV)
+				}
+			}
+		}
+		if src == nil {
+			it.fail("abi.JSON: unsupported reader")
+		}
+		text, ok := src.concreteString()
+		if !ok {
+			it.fail("abi.JSON of symbolic text")
+		}
+		return Tuple{it.abiFromJSON(text), IfaceV{}}
+	}
+}
+
+func (it *Interp) abiFromJSON(text string) Val {
+	var entries []struct {
+		Type string `json:"type"`
+		Name string `json:"name"`
+	}
+	if err := json.Unmarshal([]byte(text), &entries); err != nil {
+		it.fail("abi.JSON: %v", err)
+	}
+	var abiT, evT, mT types.Type
+	for _, p := range it.prog.AllPackages() {
+		if p.Pkg.Path() == ethABI {
+			abiT = p.Pkg.Scope().Lookup("ABI").Type()
+			evT = p.Pkg.Scope().Lookup("Event").Type()
+			mT = p.Pkg.Scope().Lookup("Method").Type()
+		}
+	}
+	res := it.zero(abiT).(*StructV)
+	st := abiT.Underlying().(*types.Struct)
+	events, methods := &MapV{}, &MapV{}
+	setName := func(s *StructV, t types.Type, name string, id *StrV) {
+		ss := t.Underlying().(*types.Struct)
+		for i := 0; i < ss.NumFields(); i++ {
+			switch ss.Field(i).Name() {
+			case "Name", "RawName":
+				s.F[i] = strLit(name)
+			case "ID":
+				if id != nil && isStrLike(ss.Field(i).Type()) {
+					s.F[i] = id
+				}
+			}
+		}
+	}
+	for _, e := range entries {
+		switch e.Type {
+		case "event":
+			h := sha256.Sum256([]byte("event:" + e.Name))
+			id := strLit(string(h[:]))
+			id.IsArr = true
+			ev := it.zero(evT).(*StructV)
+			setName(ev, evT, e.Name, id)
+			events.E = append(events.E, mapEntry{K: strLit(e.Name), V: ev})
+		case "function":
+			m := it.zero(mT).(*StructV)
+			h := sha256.Sum256([]byte("method:" + e.Name))
+			setName(m, mT, e.Name, strLit(string(h[:4])))
+			methods.E = append(methods.E, mapEntry{K: strLit(e.Name), V: m})
+		}
+	}
+	for i := 0; i < st.NumFields(); i++ {
+		switch st.Field(i).Name() {
+		case "Events":
+			res.F[i] = events
+		case "Methods":
+			res.F[i] = methods
+		}
+	}
+	return res
 }
